@@ -358,11 +358,11 @@ Definition opt (r : re) : re := RRep 0 (Some 1%nat) r.
 Definition sp_opt : re := opt (RSet false [CSpace]).
 Definition dig : re := RSet false [CDigit].
 
-(* "(?:-?\d{1,3}(?:\.?\d{0,})?(?:[eE][-+]?\d+)?\s?){2,4}\s?"  (d{0,} written for the star) *)
+(* "(?:-?\d+(?:\.\d{0,})?(?:[eE][-+]?\d+)?\s?){2,4}\s?"  (d{0,} written for the star; after repair D33) *)
 Definition re_coord : re :=
   RSeq [RRep 2 (Some 4%nat)
-          (RSeq [opt (RSet false [CChar (ch "-")]); RRep 1 (Some 3%nat) dig;
-                 opt (RSeq [opt (RSet false [CChar (ch ".")]); RRep 0 None dig]);
+          (RSeq [opt (RSet false [CChar (ch "-")]); RRep 1 None dig;
+                 opt (RSeq [RSet false [CChar (ch ".")]; RRep 0 None dig]);
                  opt (RSeq [RSet false [CChar (ch "e"); CChar (ch "E")];
                             opt (RSet false [CChar (ch "-"); CChar (ch "+")]); RRep 1 None dig]);
                  sp_opt]);
